@@ -101,9 +101,11 @@ def conversion_problem(case, r):
             p = flat_eq(r._derivs_[key], Vk, Mk, prod(o['numer']) * prod(dk))
             if p:
                 return ('deriv', 'derivative %s: %s' % (key, p))
-        elif a['rec'] and list(r._numer_) == list(o['numer']) and not o['denom']:
-            # (when the numerator changes or the operand has a denominator, the conversion goes through
-            # split_items / join_items, which remove derivatives by design)
+        elif a['rec'] and not (a['target'] == 'Matrix' and o['cls'] in ('Vector', 'Vector3', 'Pair', 'Quaternion')
+                               and len(o['denom']) == 1):
+            # recursive=True promises to convert the derivatives: constructor, flatten_numer and (since the repair of
+            # the split branch) split_items paths all keep them; only as_matrix of a Vector with one denominator
+            # axis goes through join_items, which removes derivatives by design
             return ('derivs-dropped', 'derivative %s is missing from the result although recursive=True' % key)
     return None
 
@@ -349,10 +351,10 @@ def expect_multi(case):
     numer, denom = list(first['numer']), list(first['denom'])
     refs = [None if o is None else ref_arrays(o) for o in objs]
     keys = sorted({k for r in refs if r for (k, _, _, _) in r[2]})
-    if rec and any(len(r[2]) != len(keys) for r in refs if r):
-        # a derivative missing from some operand is filled with a None / zero place-holder whose mask follows the
-        # representation of the other masks; place-holders are not elements of any input: the property is silent
-        return None
+    # A derivative missing from some operand is filled with a None / zero place-holder.  In `stack` the mask of such a
+    # place-holder row follows the representation of the other masks (masked when they are all the scalar True):
+    # place-holder rows are not elements of any input, so they are DON'T-CARE ('?') — but every row that comes from
+    # an operand that carries the derivative must be that operand's derivative, broadcast like the operand itself.
     def bc(X, item):
         return np.broadcast_to(X, tuple(out) + tuple(X.shape[len(X.shape) - len(item):]))
     if op == 'stack':
@@ -376,7 +378,15 @@ def expect_multi(case):
                     else:
                         parts.append(bc(hit[0], numer + dk)); mparts.append(np.broadcast_to(hit[1], tuple(out)))
                 d2.append((k, dk, np.stack(parts), np.stack(mparts)))
-        return render(first['cls'], [len(objs)] + out, numer, denom, V2, M2, d2)
+        exp = render(first['cls'], [len(objs)] + out, numer, denom, V2, M2, d2)
+        P = prod(out)
+        for ent in exp[6]:                      # [key, denom_k, vals, bits]
+            isz = prod(numer) * prod(ent[1])
+            for row, r in enumerate(refs):
+                if not any(kk == ent[0] for (kk, _, _, _) in r[2]):
+                    ent[2][row * P * isz:(row + 1) * P * isz] = ['?'] * (P * isz)
+                    ent[3][row * P:(row + 1) * P] = ['?'] * P
+        return exp
     if op == 'from_scalars':
         # components become a new FIRST numerator axis; the mask is the union of the component masks
         Vs = [bc(r[0], denom) for r in refs]
